@@ -191,7 +191,7 @@ func (g *c07Gen) doc() J {
 	// members required: the base itself still has that member optional
 	schemas["FixBase"] = J{"type": "object", "required": []interface{}{"id", "name", "zed"},
 		"properties": J{"id": J{"type": "integer"}, "name": J{"type": "string"}, "zed": J{"type": "string"}, "age": J{"type": "integer"}, "bio": J{"type": "string"}}}
-	schemas["A0Derived"] = J{"allOf": []interface{}{J{"$ref": "#/components/schemas/FixBase"}, J{"type": "object", "required": []interface{}{"age", "bio"}, "properties": J{"extra": J{"type": "string"}}}}}
+	schemas["A0Derived"] = J{"allOf": []interface{}{J{"$ref": "#/components/schemas/FixBase"}, J{"type": "object", "required": []interface{}{"age"}, "properties": J{"extra": J{"type": "string"}}}}}
 	// a union with optional members of its own, nullable and not: an absent one that is not nullable must stay absent
 	schemas["FixH"] = J{"type": "object", "required": []interface{}{"id"},
 		"properties": J{"id": J{"type": "integer"}, "title": J{"type": "string"}, "note": J{"type": "string", "nullable": true}, "size": J{"type": "integer", "format": "int64"}},
